@@ -38,54 +38,56 @@ LEAF_NAMES = [n for n, _ in LEAVES]
 CONTAINERS = ['quote', 'ul', 'ol', 'ul2']   # ul2 = bullet list with two items
 
 
-def forests(n, depth):
+def forests(n, depth, nleaf=None, conts=None, empty=True):
     """all lists of shapes using exactly n nodes, nesting depth <= depth"""
     if n == 0:
         yield []
         return
     for first_size in range(1, n + 1):
-        for first in shapes(first_size, depth):
-            for rest in forests(n - first_size, depth):
+        for first in shapes(first_size, depth, nleaf, conts, empty):
+            for rest in forests(n - first_size, depth, nleaf, conts, empty):
                 yield [first] + rest
 
 
-def shapes(n, depth):
+def shapes(n, depth, nleaf=None, conts=None, empty=True):
+    nleaf = len(LEAVES) if nleaf is None else nleaf
+    conts = CONTAINERS if conts is None else conts
     if n == 1:
-        for i in range(len(LEAVES)):
+        for i in range(nleaf):
             yield ('leaf', i)
-        if depth >= 1:
-            for c in CONTAINERS:
+        if depth >= 1 and empty:
+            for c in conts:
                 if c != 'ul2':
                     yield (c, [])          # empty container: quote without content / empty list item
         return
     if depth < 1:
         return
-    for c in CONTAINERS:
+    for c in conts:
         if c == 'ul2':
             if n < 3:
                 continue
             for k in range(1, n - 1):
-                for a in forests(k, depth - 1):
-                    for b in forests(n - 1 - k, depth - 1):
+                for a in forests(k, depth - 1, nleaf, conts, empty):
+                    for b in forests(n - 1 - k, depth - 1, nleaf, conts, empty):
                         yield (c, [a, b])
         else:
-            for ch in forests(n - 1, depth - 1):
+            for ch in forests(n - 1, depth - 1, nleaf, conts, empty):
                 yield (c, ch)
 
 
-def build(shape, ctr):
+def build(shape, ctr, leaves=None):
     kind, arg = shape
     if kind == 'leaf':
         ctr[0] += 1
-        return LEAVES[arg][1]('w%d' % ctr[0])
+        return (leaves or LEAVES)[arg][1]('w%d' % ctr[0])
     if kind == 'quote':
-        return N('quote', children=[build(s, ctr) for s in arg])
+        return N('quote', children=[build(s, ctr, leaves) for s in arg])
     if kind == 'ul':
-        return N('list', ordered=False, start=None, items=[[build(s, ctr) for s in arg]])
+        return N('list', ordered=False, start=None, items=[[build(s, ctr, leaves) for s in arg]])
     if kind == 'ol':
-        return N('list', ordered=True, start=3, items=[[build(s, ctr) for s in arg]])
+        return N('list', ordered=True, start=3, items=[[build(s, ctr, leaves) for s in arg]])
     if kind == 'ul2':
-        return N('list', ordered=False, start=None, two=True, items=[[build(s, ctr) for s in it] for it in arg])
+        return N('list', ordered=False, start=None, two=True, items=[[build(s, ctr, leaves) for s in it] for it in arg])
     raise KeyError(kind)
 
 
@@ -192,10 +194,14 @@ def ends_in_open_paragraph(b):
 
 def needs_blank(a, b, o):
     """must siblings a, b be separated by a blank line to stay a, b? Only the clear cases of the spec are left tight."""
+    if a.kind == 'linkdef' and getattr(a, 'glue_next', False):
+        return b.kind not in ('para', 'linkdef', 'atx')       # a definition may be followed directly by these
     if not o['tight_siblings']:
         return True
     if a.kind == 'para':
         return not interrupts_paragraph(b, o)
+    if a.kind == 'linkdef' and getattr(a, 'glue_next', False):
+        return b.kind not in ('para', 'linkdef', 'atx')
     if a.kind in ('atx', 'hr', 'fence'):
         return not (b.kind in ('para', 'atx', 'hr', 'fence', 'setext', 'quote', 'list')
                     or (b.kind == 'html' and b.lines[0] == '<div>'))
@@ -265,7 +271,7 @@ def write_block(b, rec, o, base, no_indent=False):
     if k == 'html':
         return list(b.lines)
     if k == 'linkdef':
-        return ['[%s]: %s "%s"' % (b.label, b.dest, b.title)]
+        return linkdef_lines(b)
     if k == 'table':
         def row(cells):
             return ('| ' + ' | '.join(cells) + ' |') if o['table_pipes'] == 'both' else ' | '.join(cells)
@@ -316,6 +322,19 @@ def write_block(b, rec, o, base, no_indent=False):
                 out += [(l if (i + 1) in lz else ' ' * width + l) if l else '' for i, l in enumerate(inner[1:])]
         return out
     raise KeyError(k)
+
+
+def linkdef_lines(b):
+    """[label]: dest title in the requested quoting styles; label may contain a line break"""
+    style = getattr(b, 'title_style', '"')
+    dest = '<%s>' % b.dest if getattr(b, 'angle', False) else b.dest
+    head = '[%s]: %s' % (b.label, dest)
+    if style is None or not b.title:
+        text = head
+    else:
+        t = {'"': '"%s"', "'": "'%s'", '(': '(%s)', 'nextline': '"%s"'}[style] % b.title
+        text = head + ('\n  ' if style == 'nextline' else ' ') + t
+    return text.split('\n')
 
 
 def to_markdown(blocks, o):
